@@ -15,8 +15,8 @@ use rs_matter::dm::clusters::net_comm::DummyNetworks;
 use rs_matter::dm::devices::test::{TEST_DEV_ATT, TEST_DEV_COMM, TEST_DEV_DET};
 use rs_matter::dm::devices::DEV_TYPE_ON_OFF_LIGHT;
 use rs_matter::dm::{
-    Access, Async, Attribute, Cluster, Dataver, Endpoint, Handler, InvokeContext, InvokeReply, MatchContext, Metadata,
-    Node, NonBlockingHandler, Privilege, Quality, ReadContext, ReadReply, Reply, WriteContext,
+    Access, Async, Attribute, Cluster, Dataver, Endpoint, Event, Handler, InvokeContext, InvokeReply, MatchContext,
+    Metadata, Node, NonBlockingHandler, Privilege, Quality, ReadContext, ReadReply, Reply, WriteContext,
 };
 use rs_matter::error::{Error, ErrorCode};
 use rs_matter::im::{InteractionModel, InteractionModelState};
@@ -36,24 +36,44 @@ use rs_matter::{Matter, MATTER_PORT};
 pub const PEER_ID: u64 = 445566;
 pub const REMOTE_PEER_ID: u64 = 123456;
 pub const EVENTS_BUF: usize = 4096;
+/// data versions of the harness cluster on endpoint 1 / endpoint 2
+pub const DATAVERS: [u32; 2] = [7, 9];
 
 const ADDR: Address = Address::Udp(SocketAddr::V4(SocketAddrV4::new(Ipv4Addr::UNSPECIFIED, 0)));
 
 pub const CLUSTER_ID: u32 = 0xFFF1_FC20;
 pub const ENDPOINT: u16 = 1;
+pub const ENDPOINT2: u16 = 2;
 pub const N_SCALAR: u32 = 16;
 pub const N_LIST: u32 = 6;
 
-/// Value sizes of the harness cluster for the current read.
+/// Value sizes of the harness cluster (per endpoint) for the current read.
 pub struct Sizes {
-    pub scalars: [usize; N_SCALAR as usize],
-    pub lists: [Vec<usize>; N_LIST as usize],
+    pub scalars: [[usize; N_SCALAR as usize]; 2],
+    pub lists: [[Vec<usize>; N_LIST as usize]; 2],
 }
 
 pub static SIZES: Mutex<Sizes> = Mutex::new(Sizes {
-    scalars: [0; N_SCALAR as usize],
-    lists: [Vec::new(), Vec::new(), Vec::new(), Vec::new(), Vec::new(), Vec::new()],
+    scalars: [[0; N_SCALAR as usize]; 2],
+    lists: [
+        [Vec::new(), Vec::new(), Vec::new(), Vec::new(), Vec::new(), Vec::new()],
+        [Vec::new(), Vec::new(), Vec::new(), Vec::new(), Vec::new(), Vec::new()],
+    ],
 });
+
+/// index of the endpoint in the tables (endpoint 1 -> 0, endpoint 2 -> 1)
+pub fn ep_idx(ep: u16) -> usize {
+    if ep == ENDPOINT2 {
+        1
+    } else {
+        0
+    }
+}
+
+/// deterministic content of the payload of the `n`-th event pushed for a read
+pub fn ev_pattern(n: usize, len: usize) -> Vec<u8> {
+    (0..len).map(|p| (n * 13 + p + 5) as u8).collect()
+}
 
 /// deterministic content of value `(attr, elem)`
 pub fn pattern(attr: u32, elem: usize, len: usize) -> Vec<u8> {
@@ -81,32 +101,35 @@ pub const CLUSTER: Cluster<'static> = Cluster {
         list!(16), list!(17), list!(18), list!(19), list!(20), list!(21),
     ),
     commands: commands!(),
-    events: events!(),
+    events: events!(Event::new(1, Access::RV), Event::new(2, Access::RV)),
     with_attrs: with!(all),
     with_cmds: with!(all),
     with_events: with!(all),
 };
 
 pub struct SizeHandler {
-    dataver: Dataver,
+    dataver: [Dataver; 2],
 }
 
 impl SizeHandler {
     fn do_read(&self, ctx: impl ReadContext, reply: impl ReadReply) -> Result<(), Error> {
         let attr = ctx.attr();
-        if let Some(mut writer) = reply.with_dataver(self.dataver.get())? {
+        let e = ep_idx(attr.endpoint_id);
+        if let Some(mut writer) = reply.with_dataver(self.dataver[e].get())? {
             if attr.is_system() {
                 return CLUSTER.read(attr, writer);
             }
             let sizes = SIZES.lock().unwrap();
             let id = attr.attr_id;
+            // the content differs per endpoint
+            let pid = id + 40 * e as u32;
             if id < N_SCALAR {
-                let v = pattern(id, 0, sizes.scalars[id as usize]);
+                let v = pattern(pid, 0, sizes.scalars[e][id as usize]);
                 let tag = writer.tag();
                 writer.writer().str(tag, &v)?;
                 writer.complete()
             } else if id < N_SCALAR + N_LIST {
-                let lens = &sizes.lists[(id - N_SCALAR) as usize];
+                let lens = &sizes.lists[e][(id - N_SCALAR) as usize];
                 let li = attr.list_index.clone().map(|li| li.into_option());
                 let tag = writer.tag();
                 {
@@ -115,7 +138,7 @@ impl SizeHandler {
                         None => {
                             tw.start_array(tag)?;
                             for (k, len) in lens.iter().enumerate() {
-                                tw.str(&TLVTag::Anonymous, &pattern(id, k, *len))?;
+                                tw.str(&TLVTag::Anonymous, &pattern(pid, k, *len))?;
                             }
                             tw.end_container()?;
                         }
@@ -125,7 +148,7 @@ impl SizeHandler {
                         }
                         Some(Some(i)) => {
                             let len = lens.get(i as usize).ok_or(ErrorCode::ConstraintError)?;
-                            tw.str(tag, &pattern(id, i as usize, *len))?;
+                            tw.str(tag, &pattern(pid, i as usize, *len))?;
                         }
                     }
                 }
@@ -150,7 +173,8 @@ impl Handler for SizeHandler {
         Err(ErrorCode::CommandNotFound.into())
     }
     fn bump_dataver(&self, _ctx: impl MatchContext) {
-        self.dataver.changed();
+        self.dataver[0].changed();
+        self.dataver[1].changed();
     }
 }
 
@@ -159,7 +183,10 @@ impl NonBlockingHandler for SizeHandler {}
 pub struct SizeModel(pub Async<SizeHandler>);
 
 pub const NODE: Node<'static> = Node {
-    endpoints: &[Endpoint::new(ENDPOINT, &[DEV_TYPE_ON_OFF_LIGHT], clusters!(CLUSTER))],
+    endpoints: &[
+        Endpoint::new(ENDPOINT, &[DEV_TYPE_ON_OFF_LIGHT], clusters!(CLUSTER)),
+        Endpoint::new(ENDPOINT2, &[DEV_TYPE_ON_OFF_LIGHT], clusters!(CLUSTER)),
+    ],
 };
 
 impl Metadata for SizeModel {
@@ -267,7 +294,7 @@ impl<C: Crypto> Runner<C> {
         let (send_local, recv_remote) = pipe2.split();
 
         let kv = self.matter.kv(DummyKvBlobStore);
-        let handler = SizeModel(Async(SizeHandler { dataver: Dataver::new(7) }));
+        let handler = SizeModel(Async(SizeHandler { dataver: [Dataver::new(DATAVERS[0]), Dataver::new(DATAVERS[1])] }));
         let dm = InteractionModel::new(&self.matter, &self.crypto, &self.buffers, handler, &kv, &self.state);
         let responder = Responder::new_default(&dm);
 
